@@ -144,9 +144,9 @@ theorem reject_unknown_mnemonic (s : Instr) (hname : ∀ r ∈ instrTable, r.nam
   · rw [memNoReg_instruction, allOpdStrToReg_instruction, strToInstrKey_unknown _ _ _ hname]
     simp
 
-theorem reject_unknown_mnemonic_line (opt : Nat) (f : Str) (s : Instr)
-    (htok : instrTok (initInstr opt) f = .ok s) (hname : ∀ r ∈ instrTable, r.name ≠ s.instruction) :
-    lexLine opt f = .error .fail := by
+theorem reject_unknown_mnemonic_line (f : Str) (s : Instr)
+    (htok : instrTok initInstr f = .ok s) (hname : ∀ r ∈ instrTable, r.name ≠ s.instruction) :
+    lexLine f = .error .fail := by
   unfold lexLine; rw [htok]; exact reject_unknown_mnemonic s hname
 
 /-! ### (c) operand-kind combinations: see AL.Properties.C10Table (kernel evaluation on the table) -/
@@ -203,8 +203,8 @@ theorem resolveBranch_error (s : Instr) (e : Err) (h : resolveBranch s = .error 
 
 /-- **(b)** a register token that `str_to_reg` cannot find makes `check_registers` fail the line,
     whatever else the line contains -/
-theorem reject_unknown_register (s : Instr) (h : checkRegistersFail s = true) :
-    resolveLine s = .error .fail := by
+theorem reject_unknown_register (opt : Nat) (s : Instr) (h : checkRegistersFail s = true) :
+    resolveLine opt s = .error .fail := by
   unfold resolveLine
   cases hb : resolveBranch s with
   | error e => rw [resolveBranch_error s e hb]
